@@ -151,6 +151,10 @@ pub fn profile(prop: &str, tier: &str) -> Profile {
                 (K::Yield, 3),
                 (K::TrySend, 1),
                 (K::TryRecv, 1),
+                // timed operations must also make progress (report Timeout) once their deadline passed
+                (K::RecvTimeout, 3),
+                (K::SendTimeout, 2),
+                (K::SendOptTimeout, 1),
             ]),
             pays: vec![Pay::P4, Pay::P16, Pay::P8, Pay::Z0],
             max_sched: 128,
